@@ -119,6 +119,7 @@ class Ctx:
         self.status = status or {}        # coq_name -> 'ok' | 'untranslatable...' of the targets translated so far
         self.funcs = funcs or {}          # (class, name, kind) -> FunctionDef
         self.loop_depth = 0
+        self.inline = []                  # frames of helper calls being inlined: {"name":..., "ty": result type}
 
     def fresh(self, base):
         base = base.replace(".", "_")
@@ -166,6 +167,8 @@ def expr(e, env, cx):
         if key in env:
             return [], env[key][0], env[key][1]
         bad(e, "unknown attribute")
+    if isinstance(e, ast.Call) and helper_def(e, cx, env) is not None:
+        return inline_call(e, env, cx)
     if isinstance(e, ast.Call) and isinstance(e.func, ast.Attribute) and isinstance(e.func.value, ast.Name):
         v, term, callee = method_call(e, env, cx)
         if callee.ret is None or callee.out_fields:
@@ -205,7 +208,15 @@ def expr(e, env, cx):
         bc, c = cond(e.test, env, cx)
         b1, x, t1 = expr(e.body, env, cx)
         b2, y, t2 = expr(e.orelse, env, cx)
-        if t1 != t2 or b1 or b2:
+        if b1 or b2:
+            bad(e, "conditional expression")
+        if t1 != t2 and {t1, t2} <= {INT, "none", OPTINT}:
+            # `x if c else None`: an optional int
+            opt = {INT: "(Some %s)", "none": "(@None Z)", OPTINT: "%s"}
+            x = opt[t1] % x if "%s" in opt[t1] else opt[t1]
+            y = opt[t2] % y if "%s" in opt[t2] else opt[t2]
+            t1 = t2 = OPTINT
+        if t1 != t2:
             bad(e, "conditional expression")
         return bc, "(if %s then %s else %s)" % (c, x, y), t1
     if isinstance(e, ast.Call) and isinstance(e.func, ast.Name) and e.func.id == "len" and len(e.args) == 1:
@@ -292,6 +303,95 @@ def cond(e, env, cx):
     if ty != BOOL:
         bad(e, "truthiness of a non-bool")
     return b, t
+
+
+def helper_def(call, cx, env=None):
+    """the FunctionDef of a private helper of the same module that a call refers to: self._h(..), cls._h(..), Class._h(..)
+    (plain or static method of the class being translated), <loop element>._h(..) (plain method of the element's class)
+    or a module-level function _h(..); None for anything else"""
+    f = call.func
+    if env is not None and isinstance(f, ast.Attribute) and isinstance(f.value, ast.Name) and isinstance(env.get(f.value.id, (None, None))[1], Rec):
+        ecls = env[f.value.id][1].cls
+        if any(g.cls == ecls and g.name == f.attr for g in TARGETS):
+            return None
+        return cx.funcs.get((ecls, f.attr, "method"))
+    if isinstance(f, ast.Attribute) and isinstance(f.value, ast.Name) and f.value.id in ("self", "cls", cx.fn.cls):
+        for kind in ("method", "static"):
+            d = cx.funcs.get((cx.fn.cls, f.attr, kind))
+            if d is not None and not any(g.cls == cx.fn.cls and g.name == f.attr for g in TARGETS):
+                if kind == "method" and f.value.id != "self":
+                    return None
+                return d
+        return None
+    if isinstance(f, ast.Name):
+        return cx.funcs.get(("", f.id, "function"))
+    return None
+
+
+def inline_call(call, env, cx):
+    """A call of a side-effect-free helper is translated in place: the helper's body becomes an option-valued term (raise ->
+    None, return e -> Some e) that is bound like a property access.  The helper may read self fields, must not assign
+    them, and every return must have the same type."""
+    fdef = helper_def(call, cx, env)
+    name = fdef.name
+    elem = call.func.value.id if isinstance(call.func, ast.Attribute) and isinstance(env.get(call.func.value.id, (None, None))[1], Rec) else None
+    if len(cx.inline) >= 3 or any(fr["name"] == name for fr in cx.inline):
+        bad(call, "helper calls nested too deeply or recursive")
+    for d in fdef.decorator_list:
+        if ast.unparse(d) != "staticmethod":
+            bad(call, "helper %s carries decorator @%s" % (name, ast.unparse(d)))
+    a = fdef.args
+    if a.vararg or a.kwarg or a.kwonlyargs or a.posonlyargs:
+        bad(call, "helper parameter list")
+    is_method = isinstance(call.func, ast.Attribute) and not any(ast.unparse(d) == "staticmethod" for d in fdef.decorator_list)
+    params = [x.arg for x in a.args][1 if is_method else 0:]
+    defaults = dict(zip(params[len(params) - len(a.defaults):], a.defaults)) if a.defaults else {}
+    given = dict(zip(params, call.args))
+    if len(call.args) > len(params):
+        bad(call, "too many arguments")
+    for k in call.keywords:
+        if k.arg is None or k.arg not in params or k.arg in given:
+            bad(call, "keyword argument")
+        given[k.arg] = k.value
+    for n in ast.walk(fdef):
+        if isinstance(n, (ast.Assign, ast.AugAssign, ast.AnnAssign)):
+            for t in (n.targets if isinstance(n, ast.Assign) else [n.target]):
+                if not isinstance(t, ast.Name):
+                    bad(call, "helper %s assigns to something other than a local" % name)
+        if isinstance(n, (ast.Global, ast.Nonlocal, ast.Yield, ast.YieldFrom, ast.Lambda, ast.FunctionDef)) and n is not fdef:
+            bad(call, "helper %s uses a construct outside the subset" % name)
+    binds, lets = [], []
+    if elem is not None:
+        # the helper's self is the loop element: its fields are the element's fields
+        env_c = {"self." + k[len(elem) + 1:]: v for k, v in env.items() if k.startswith(elem + ".")}
+    else:
+        env_c = {k: v for k, v in env.items() if k.startswith("self.")} if is_method else {}
+    for p_ in params:
+        src = given.get(p_, defaults.get(p_))
+        if src is None:
+            bad(call, "missing argument %s" % p_)
+        b, t, ty = expr(src, env if p_ in given else {}, cx)
+        if ty == "none":
+            bad(call, "a bare None argument has no type here")
+        binds += b
+        v = cx.fresh(p_)
+        lets.append("let %s := %s in " % (v, t))
+        env_c[p_] = (v, ty)
+    frame = {"name": name, "ty": None}
+    cx.inline.append(frame)
+    depth, cx.loop_depth = cx.loop_depth, 0
+
+    def fell_off(_env):
+        bad(call, "helper %s can fall off its end" % name)
+    try:
+        body = stmts(fdef.body, env_c, cx, fell_off, None)
+    finally:
+        cx.inline.pop()
+        cx.loop_depth = depth
+    if frame["ty"] is None:
+        bad(call, "helper %s never returns a value" % name)
+    r = cx.fresh("r_" + name.lstrip("_"))
+    return binds + [(r, "(" + "".join(lets) + body + ")")], r, frame["ty"]
 
 
 def method_call(call, env, cx):
@@ -499,6 +599,26 @@ def stmts(body, env, cx, k_end, k_break=None):
         bad(s, "expression statement")
     if isinstance(s, ast.Pass):
         return nxt(env)
+    if isinstance(s, (ast.Return, ast.Assign)) and isinstance(s.value, ast.IfExp) and \
+            (isinstance(s, ast.Return) or len(s.targets) == 1):
+        # `return a if c else b` / `x = a if c else b` read as the if statement they abbreviate (a property access in
+        # one arm is then evaluated only on that arm, as in Python)
+        def plain(v):
+            try:
+                return not expr(v, env, cx)[0]
+            except Untranslatable:
+                return False
+        if plain(s.value.body) and plain(s.value.orelse):
+            branchless = True
+        else:
+            branchless = False
+
+        def arm(v):
+            n = ast.Return(value=v) if isinstance(s, ast.Return) else ast.Assign(targets=s.targets, value=v)
+            return ast.copy_location(n, s)
+        if not branchless:
+            branch = ast.copy_location(ast.If(test=s.value.test, body=[arm(s.value.body)], orelse=[arm(s.value.orelse)]), s)
+            return stmts([branch] + rest, env, cx, k_end, k_break)
     if isinstance(s, (ast.Assign, ast.AugAssign)):
         if isinstance(s, ast.Assign):
             if len(s.targets) != 1:
@@ -579,6 +699,15 @@ def stmts(body, env, cx, k_end, k_break=None):
     if isinstance(s, ast.Return):
         if cx.loop_depth:
             bad(s, "return inside a loop over records")
+        if cx.inline:
+            if s.value is None:
+                bad(s, "helper returns no value")
+            b, t, ty = expr(s.value, env, cx)
+            fr = cx.inline[-1]
+            if ty == "none" or (fr["ty"] is not None and fr["ty"] != ty):
+                bad(s, "helper return types differ")
+            fr["ty"] = ty
+            return with_binds(b, "Some (%s)" % t)
         if s.value is None:
             return result_term(cx, env, None)
         if isinstance(s.value, ast.Call) and isinstance(s.value.func, ast.Name) and s.value.func.id == "cls":
@@ -657,6 +786,8 @@ def find_functions(tree):
     """{(class, name, kind): FunctionDef} and class-level integer constants"""
     out, consts = {}, {}
     for node in tree.body:
+        if isinstance(node, ast.FunctionDef):
+            out[("", node.name, "function")] = node
         if not isinstance(node, ast.ClassDef):
             continue
         for item in node.body:
